@@ -60,6 +60,20 @@ fn check(seqs: &[Vec<u8>], pat: &[u8], k: u32, l: usize) -> Result<(), String> {
                 if sorted(r.0.revcomp().occ(&sa)) != occs(&text, &dna::revcomp(sub)) { return Err(format!("smem {:?}: revcomp interval does not map to the reverse-complement occurrences", (r.1, r.2))); }
             }
         }
+        // all_smems: exactly the supermaximal matches of the whole pattern (length >= l), each at least once
+        {
+            let occurs = |a: usize, e: usize| !occs(&text, &pat[a..e]).is_empty();
+            let mut want = vec![];
+            for a in 0..pat.len() { for e in a + 1..=pat.len() {
+                if !occurs(a, e) { continue; }
+                if a > 0 && occurs(a - 1, e) { continue; }
+                if e < pat.len() && occurs(a, e + 1) { continue; }
+                if e - a >= l { want.push((a, e - a)); }
+            } }
+            let mut got: Vec<(usize, usize)> = fmd.all_smems(&pat, l).iter().map(|r| (r.1, r.2)).collect();
+            got.sort(); got.dedup(); want.sort();
+            if got != want { return Err(format!("all_smems(l={}) = {:?}, supermaximal matches are {:?}", l, got, want)); }
+        }
         Ok(())
     }).and_then(|r| r)
 }
